@@ -73,7 +73,7 @@ func c03Class(t *rc.Type) string {
 }
 
 func c03(c *wk.Ctx) {
-	c.Note("rule", "each case: a random signature T (nested lists, maps with comparable keys, tuples, structs over all scalar kinds incl. c C w W and m), the Go type generated proxies use for T, a random edge-biased value v. Three-way oracle: E = reflection encoder output must decode with the reference decoder to v consuming all of E (and equal the reference bytes when T has no map); signature.Parse(T).Reader().Read(E||trailer) must return exactly E; the reflection decoder must recover v from E. Distinct non-trivial = distinct type shapes with at least one composite or a value kind.")
+	c.Note("rule", "each case: a random signature T (nested lists, maps with comparable keys, tuples, structs over all scalar kinds incl. c C w W and m), the Go type generated proxies use for T, a random edge-biased value v (one case in eight may hold up to three strings / buffers of 4 KiB .. 70 KiB). Three-way oracle: E = reflection encoder output must decode with the reference decoder to v consuming all of E (and equal the reference bytes when T has no map); signature.Parse(T).Reader().Read(E||trailer) must return exactly E; the reflection decoder must recover v from E. Distinct non-trivial = distinct type shapes with at least one composite or a value kind.")
 	depth := c.Pick(4, 6)
 	c.Cases("three", c.Pick(100000, 500000), func(i int, rng *rand.Rand) {
 		t := rc.GenType(rng, rc.GenOpts{Depth: depth, Width: 4, Scalars: c03Scalars, ComparableKeys: true, MaxAnonNest: 4})
@@ -82,7 +82,17 @@ func c03(c *wk.Ctx) {
 		}
 		b := c.Pick(150, 400)
 		inner := rc.GenOpts{Depth: 2, Width: 3, ComparableKeys: true, MaxAnonNest: 3}
-		v := fixDyn(rng, t, rc.GenValue(rng, t, rc.ValOpts{MaxLen: 5, MaxStr: 30, Budget: &b, DynDepth: 1, DynOpts: &inner}))
+		vo := rc.ValOpts{MaxLen: 5, MaxStr: 30, Budget: &b, DynDepth: 1, DynOpts: &inner}
+		if i%8 == 7 { // up to three long strings / buffers (4 KiB .. 70 KiB), wherever the type has them
+			long := 3
+			vo.LongStr = &long
+			defer func() {
+				if long < 3 {
+					c.Count("values_with_long_strings", 1)
+				}
+			}()
+		}
+		v := fixDyn(rng, t, rc.GenValue(rng, t, vo))
 		checkThree(c, "three", i, t, v, rng)
 	})
 	// long containers up to the decoder's own cap
